@@ -153,7 +153,7 @@ func LnCol(src string, pos int) (int, int) {
 
 // NewPoint builds an input point the documented way.
 func NewPoint(measurement string, tags map[string]string, fields map[string]any) *input.Point {
-	pt := &input.Point{}
+	pt := input.GetPoint() // from the pool, as a host does
 	t := map[string]string{}
 	for k, v := range tags {
 		t[k] = v
@@ -166,3 +166,6 @@ func NewPoint(measurement string, tags map[string]string, fields map[string]any)
 }
 
 var fixedTime = timeUnix(1_600_000_000)
+
+// ReleasePoint returns a point to the pool (the maps it held stay with the caller).
+func ReleasePoint(pt *input.Point) { input.PutPoint(pt) }
